@@ -9,6 +9,7 @@
 -/
 import Pfb.AutoImp.Resolve
 import Pfb.AutoImp.PyWorld
+import Pfb.AutoImp.PySound
 import Pfb.C06.Props
 namespace Pfb.C07
 open Pfb.AutoImp
@@ -226,6 +227,19 @@ theorem C07_success_resolves (db : DB) (hdb : DbKeyed db) (hshape : DbShape db) 
 
 end
 
+/-- **C07_success_resolves for the concrete CPython-universe model** (`pyUniv`, the model the
+    correspondence check validates against the real interpreter): for every universe whose modules
+    have no side effects on other modules and no member named like one of their submodules, every
+    well-formed world (`Inv`: in particular every world reached from the empty one by imports) and
+    every namespace stack whose objects exist in that world. -/
+theorem C07_success_resolves_py {spec : List ModSpec} (hs : PyW.SpecOK spec) (db : DB) (hdb : DbKeyed db)
+    (hshape : DbShape db) (missing : List Dotted) (st st' : State PyW) (hnss : st.nss ≠ [])
+    (hne : ∀ d ∈ missing, d ≠ []) (hinv : PyW.Inv spec st.w)
+    (hk : ∀ i k v, (getNs st.nss i).lookup k = some v → v < st.w.next)
+    (h : autoImport pyUniv db (some missing) st = (.ok true, st')) :
+    ∀ d ∈ missing, symbolNeedsImport pyUniv st'.w st'.nss d = false :=
+  C07_success_resolves (PyW.pyUniv_sound hs) db hdb hshape missing st st' hnss hne hinv hk h
+
 /-! ### C07_provenance -/
 
 /-- where the binding `k` added by call `c` may come from -/
@@ -425,6 +439,39 @@ example :
       simp [db, List.lookup_cons, this] at hl
   exact C07_success_resolves toy_sound db hdb hshape missing st _ (by simp [st]) (by simp [missing])
     trivial (fun _ _ _ _ => trivial) (Prod.ext h1 rfl)
+
+/-- `C07_success_resolves_py` applied to the universe / state of the D14 witness: package `xml`
+    loaded and bound in the outer namespace, `xml.dom.minidom.p` missing -/
+example : symbolNeedsImport pyUniv C06.Witness.st1.w C06.Witness.st1.nss
+    [C06.Witness.xml, C06.Witness.dom, C06.Witness.minidom, ['p']] = false := by
+  have hs : PyW.SpecOK C06.Witness.spec := by
+    constructor
+    · intro s hs
+      simp only [C06.Witness.spec, List.mem_cons, List.not_mem_nil, or_false] at hs
+      rcases hs with rfl | rfl | rfl <;> rfl
+    · intro s hs m hm s' hs'
+      simp only [C06.Witness.spec, List.mem_cons, List.not_mem_nil, or_false] at hs hs'
+      rcases hs with rfl | rfl | rfl <;> simp at hm
+      subst hm
+      rcases hs' with rfl | rfl | rfl <;> decide
+  have hinv : PyW.Inv C06.Witness.spec C06.Witness.st0.w :=
+    (PyW.importChain_good hs _ [C06.Witness.xml] (PyW.inv_empty _)).1.inv'
+  refine C07_success_resolves_py hs [] (fun _ _ h => by simp at h) (fun _ _ h => by simp at h)
+    [[C06.Witness.xml, C06.Witness.dom, C06.Witness.minidom, ['p']]] C06.Witness.st0 C06.Witness.st1
+    (by decide) (by decide) hinv ?_ (Prod.ext C06.Witness.D14_witness.1 rfl) _ (by simp)
+  intro i k v hl
+  have h2 : C06.Witness.st0.w.next = 3 ∨ 1 < C06.Witness.st0.w.next := Or.inr (by decide)
+  have hv : v = 1 := by
+    match i with
+    | 0 =>
+      simp only [C06.Witness.st0, getNs, List.getD_cons_zero, List.lookup_cons] at hl
+      split at hl
+      · simpa using hl.symm
+      · simp at hl
+    | 1 => simp [C06.Witness.st0, getNs] at hl
+    | (n + 2) => simp [C06.Witness.st0, getNs] at hl
+  subst hv
+  rcases h2 with h | h <;> omega
 
 def vqa : Name := ['v', 'q', 'a']
 def vqb : Name := ['v', 'q', 'b']
